@@ -191,7 +191,7 @@ class kFlowDecomp(pathmodel.AbstractPathModelDAG):
         self._lowerbound_k = None
         
         self.solve_statistics = {}
-        self.optimization_options = optimization_options.copy() or {}
+        self.optimization_options = optimization_options.copy() if optimization_options is not None else {}
 
         greedy_solution_paths = None
         self.optimize_with_greedy = self.optimization_options.get("optimize_with_greedy", kFlowDecomp.optimize_with_greedy)
